@@ -1229,6 +1229,9 @@ def _parse_args(H_c: Hamiltonian, H_n: Hamiltonian, dt: Coefficients, **kwargs) 
     if (dt < 0).any():
         raise ValueError('Time steps are not (all) positive!')
 
+    # Equal time grids should compare (and hash) equal irrespective of the input's data type
+    dt = dt.real.astype(float)
+
     control_args = _parse_Hamiltonian(H_c, len(dt), 'H_c')
     noise_args = _parse_Hamiltonian(H_n, len(dt), 'H_n')
 
